@@ -4,6 +4,7 @@ import (
 	"context"
 
 	errorsmod "cosmossdk.io/errors"
+	cryptocodec "github.com/cosmos/cosmos-sdk/crypto/codec"
 	cryptotypes "github.com/cosmos/cosmos-sdk/crypto/types"
 
 	"github.com/initia-labs/OPinit/x/opchild/types"
@@ -40,6 +41,11 @@ func (k Keeper) RegisterExecutorChangePlan(
 	err = k.cdc.UnmarshalInterfaceJSON([]byte(consensusPubKey), &pubKey)
 	if err != nil {
 		return errorsmod.Wrap(types.ErrInvalidExecutorChangePlan, "invalid pub key")
+	}
+
+	// the key has to be usable as a consensus key, otherwise the end blocker panics at the plan height
+	if _, err := cryptocodec.ToCmtProtoPublicKey(pubKey); err != nil {
+		return errorsmod.Wrap(types.ErrInvalidExecutorChangePlan, "pub key cannot be used as a consensus key")
 	}
 
 	validator, err := types.NewValidator(valAddr, pubKey, moniker)
